@@ -59,6 +59,12 @@ func verifC08_e2e() {
 	maxL := vParam("maxL", 3)
 	L := vChoose("L", maxL+2) - 1 // -1 = unlimited
 	n := vChoose("n", maxL+3)
+	useDefault := vParam("default", 0) == 1
+	if useDefault {
+		// the documented default: no SetReadLimit call at all; sizes around 32768
+		L = 32768
+		n = 32767 + vChoose("nAround", 4)
+	}
 	data := vBytes("data", n)
 	compressed := vParam("deflate", 0) != 0
 	final := false
@@ -89,13 +95,19 @@ func verifC08_e2e() {
 	frames = append(frames, vDataFrames(second, nil, 1, false, client)...)
 	t := vNewTransport(vEncodeFrames(frames))
 	c := vNewConn(t, client, vCopts(vParam("deflate", 0)), 64, 256)
-	c.SetReadLimit(int64(L))
+	if !useDefault {
+		c.SetReadLimit(int64(L))
+	}
 	typ, r, err := c.Reader(vBG)
 	vAssert(vAnd(err == nil, typ == MessageBinary), "C08.e2e.reader")
 	if err != nil {
 		return
 	}
-	got, rerr := vReadAll(r, 1+vChoose("buf", 2)*6)
+	bufSize := 1 + vChoose("buf", 2)*6
+	if useDefault {
+		bufSize = 4096
+	}
+	got, rerr := vReadAll(r, bufSize)
 	vReach("C08.e2e.read")
 	if client {
 		vClassify("role", "client")
